@@ -5,6 +5,7 @@ mod exec;
 mod sc_await;
 mod sc_chan;
 mod sc_glitch;
+mod sc_guard;
 mod sc_lock;
 mod sc_memolock;
 mod sc_read;
@@ -19,6 +20,9 @@ fn c19(case: &Sexp) -> Sexp {
         10 => sc_await::run(case, true),
         11 => sc_memolock::run(case),
         13 => sc_memolock::run_immediate(case),
+        15 => sc_guard::run_one_thread(case),
+        16 => sc_guard::run_two_threads(case),
+        17 => sc_guard::run_read_vs_store(case),
         2 => sc_chan::run(case),
         3 => sc_sig::run(case),
         4 => sc_glitch::run(case),
